@@ -58,10 +58,11 @@ MonInit(n) == [wait |-> TLCEval([m \in 1..n |-> 0]), pert |-> TLCEval([m \in 1..
 MxStep(mon, prio, fresh) == TLCEval([m \in DOMAIN mon.mx |-> IF prio[m] = 0 \/ m = fresh THEN prio[m] ELSE Max2(mon.mx[m], prio[m])])
 LoStep(mon, prio, fresh) == TLCEval([m \in DOMAIN mon.lo |-> IF prio[m] = 0 \/ m = fresh \/ mon.lo[m] = 0 THEN prio[m] ELSE Min2(mon.lo[m], prio[m])])
 MinCnt(cnt, A) == IF A = {} THEN 0 ELSE CHOOSE c \in {cnt[m] : m \in A} : \A m \in A : cnt[m] >= c
-(* a selection of sel; prio = priorities after the step                                               *)
-MonSelect(mon, sel, prio) ==
+(* a selection of sel; prio = priorities after the step.  The wait of a message that is currently not *)
+(* judged (more than K perturbations since its last selection) is not counted: keeps the monitor finite *)
+MonSelect(mon, sel, prio, K) ==
   LET A == Active(prio)
-      w == [m \in DOMAIN mon.wait |-> IF m = sel \/ m \notin A THEN 0 ELSE mon.wait[m] + 1]
+      w == [m \in DOMAIN mon.wait |-> IF m = sel \/ m \notin A \/ mon.pert[m] > K THEN 0 ELSE mon.wait[m] + 1]
       p == [m \in DOMAIN mon.pert |-> IF m = sel \/ m \notin A THEN 0 ELSE mon.pert[m]]
       c0 == [m \in DOMAIN mon.cnt |-> IF m \notin A THEN 0 ELSE IF m = sel THEN mon.cnt[m] + prio[m] ELSE mon.cnt[m]]
       lo == MinCnt(c0, A)
@@ -72,7 +73,7 @@ MonSelect(mon, sel, prio) ==
 (* message starts a new wait                                                                          *)
 MonPerturb(mon, kind, who, prio, K) ==
   LET A == Active(prio) IN
-  [wait |-> TLCEval([m \in DOMAIN mon.wait |-> IF m \notin A \/ (kind = "readd" /\ m = who) THEN 0 ELSE mon.wait[m]]),
+  [wait |-> TLCEval([m \in DOMAIN mon.wait |-> IF m \notin A \/ (kind = "readd" /\ m = who) \/ mon.pert[m] >= K THEN 0 ELSE mon.wait[m]]),
    pert |-> TLCEval([m \in DOMAIN mon.pert |-> IF m \notin A \/ (kind = "readd" /\ m = who) THEN 0 ELSE Min2(mon.pert[m] + 1, K + 1)]),
    cnt |-> TLCEval([m \in DOMAIN mon.cnt |-> 0]),
    mx |-> MxStep(mon, prio, IF kind = "readd" THEN who ELSE 0), lo |-> LoStep(mon, prio, IF kind = "readd" THEN who ELSE 0),
